@@ -29,6 +29,7 @@ mod mon_c14;
 mod mon_c15;
 mod mon_c16;
 mod mon_c17;
+mod mon_c17_aux;
 mod mon_c18;
 mod mon_c19;
 mod mon_c20;
